@@ -3,6 +3,8 @@ import itertools
 
 import numpy as np
 
+import common
+
 LEVEL = "proof"
 N_CASES = {"quick": 2500, "thorough": 120000}
 RULE = ("random integer arrays: 1-6 columns, 0-9 rows, magnitudes at / one below / one above 2^15, 2^20, 2^31, "
@@ -374,3 +376,73 @@ def nontrivial(c, o):
     data = c.get("rows") or c.get("vs") or c.get("data") or c.get("a") or []
     keys = [tuple(x) if isinstance(x, list) else x for x in data]
     return len(keys) >= 2 and len(set(keys)) < len(keys)
+
+
+# ------------------------------------------------------------------ (G) the packing constants of hashable_rows, from the source
+
+def translate(ctx):
+    """by ast: the column limit, the `precision` / `threshold` / offset expressions (evaluated for 2, 3, 4 columns),
+    the strictness of the two guard comparisons and the shape of the shift in `grouping.hashable_rows`"""
+    import ast
+    import os
+    tree = ast.parse(open(os.path.join(common.REPO, "trimesh/grouping.py")).read())
+    fn = next((n for n in tree.body if isinstance(n, ast.FunctionDef) and n.name == "hashable_rows"), None)
+    if fn is None:
+        raise common.Broken("translate", "grouping.py: hashable_rows not found")
+    block = None
+    for st in fn.body:
+        if isinstance(st, ast.If) and "allow_int" in ast.unparse(st.test) and "shape[1] <=" in ast.unparse(st.test):
+            block = st
+    if block is None:
+        raise common.Broken("translate", "hashable_rows: the integer-packing branch was not found")
+    max_cols = None
+    for cmp_ in ast.walk(block.test):
+        if isinstance(cmp_, ast.Compare) and isinstance(cmp_.ops[0], ast.LtE) and "shape[1]" in ast.unparse(cmp_.left):
+            max_cols = int(ast.literal_eval(cmp_.comparators[0]))
+    exprs, guard, offset_expr, shift_expr = {}, None, None, None
+    for st in block.body:
+        if isinstance(st, ast.Assign) and isinstance(st.targets[0], ast.Name) and st.targets[0].id in ("precision", "threshold"):
+            exprs[st.targets[0].id] = ast.unparse(st.value)
+        if isinstance(st, ast.If):
+            guard = st.test
+            for inner in ast.walk(st):
+                if isinstance(inner, ast.Assign) and ast.unparse(inner.targets[0]) == "bitbang":
+                    offset_expr = ast.unparse(inner.value)
+                if isinstance(inner, ast.BinOp) and isinstance(inner.op, ast.LShift):
+                    shift_expr = ast.unparse(inner)
+    if max_cols is None or set(exprs) != {"precision", "threshold"} or guard is None or not offset_expr or not shift_expr:
+        raise common.Broken("translate", "hashable_rows: could not recover the packing constants")
+    if not (isinstance(guard, ast.BoolOp) and isinstance(guard.op, ast.And) and len(guard.values) == 2):
+        raise common.Broken("translate", "hashable_rows: the range guard is no longer `a and b`")
+    ops = {ast.Lt: "lt", ast.LtE: "le", ast.Gt: "gt", ast.GtE: "ge"}
+    g = []
+    for v in guard.values:
+        if not (isinstance(v, ast.Compare) and type(v.ops[0]) in ops):
+            raise common.Broken("translate", "hashable_rows: unexpected comparison in the range guard")
+        g.append((ast.unparse(v.left), ops[type(v.ops[0])], ast.unparse(v.comparators[0])))
+    if shift_expr.replace(" ", "") != "column<<offset*precision" or "as_int.T + (threshold + 1)" not in offset_expr:
+        raise common.Broken("translate", f"hashable_rows: packing is no longer `(as_int.T + (threshold + 1))` shifted by "
+                                         f"`offset * precision` ({offset_expr!r}, {shift_expr!r})")
+
+    class _A:
+        def __init__(self, cols):
+            self.shape = (7, cols)
+    rows = []
+    for cols in range(2, max_cols + 1):
+        env = {"np": np, "as_int": _A(cols), "int": int}
+        env["precision"] = int(eval(exprs["precision"], env))
+        env["threshold"] = int(eval(exprs["threshold"], env))
+        rows.append((cols, env["precision"], env["threshold"]))
+    L = ["-- GENERATED by harness/props/C06.py from /repo/trimesh/grouping.py::hashable_rows (ast) -- do not edit",
+         "namespace TV.Generated.C06",
+         f"def maxCols : Nat := {max_cols}",
+         "/-- (columns, precision, threshold) as the source computes them -/",
+         "def packRows : List (Nat × Nat × Int) := [" + ", ".join(f"({a}, {b}, {c})" for a, b, c in rows) + "]",
+         "/-- the two comparisons of the range guard: (left, operator, right) -/",
+         "def guard : List (String × String × String) := [" + ", ".join(f'("{a}", "{b}", "{c}")' for a, b, c in g) + "]",
+         "end TV.Generated.C06"]
+    return {"C06Pack.lean": "\n".join(L) + "\n"}
+
+
+def generated_obligations():
+    return 1
